@@ -169,6 +169,8 @@ func (w *Workceptor) generateUnitID(lock bool) (string, error) {
 				continue
 			}
 
+			verifPoint("alloc.before_mkdir", ident)
+
 			return ident, os.MkdirAll(unitdir, 0o700)
 		}
 	}
@@ -256,6 +258,7 @@ func (w *Workceptor) AllocateUnit(workTypeName string, params map[string]string)
 	if err != nil {
 		return nil, err
 	}
+	verifPoint("alloc.mkdir_done", ident)
 	worker := wt.newWorkerFunc(nil, w, ident, workTypeName)
 	err = worker.SetFromParams(params)
 	if err == nil {
@@ -264,6 +267,7 @@ func (w *Workceptor) AllocateUnit(workTypeName string, params map[string]string)
 	if err != nil {
 		return nil, err
 	}
+	verifPoint("alloc.saved", ident)
 	w.activeUnits[ident] = worker
 
 	return worker, nil
@@ -318,6 +322,7 @@ func (w *Workceptor) AllocateRemoteUnit(remoteNode, remoteWorkType, tlsClient, t
 	if rw.LastUpdateError() != nil {
 		return nil, rw.LastUpdateError()
 	}
+	verifPoint("alloc.remote_saved", "")
 
 	return rw, nil
 }
@@ -337,6 +342,7 @@ func (w *Workceptor) scanForUnit(unitID string) {
 	if !ok {
 		statusFilename := path.Join(unitdir, "status")
 		sfd := &StatusFileData{}
+		verifPoint("scan.before_load", ident)
 		_ = sfd.Load(statusFilename)
 		w.workTypesLock.RLock()
 		wt, ok := w.workTypes[sfd.WorkType]
@@ -357,7 +363,9 @@ func (w *Workceptor) scanForUnit(unitID string) {
 			w.nc.GetLogger().Warning("Failed to restart worker %s due to read error: %s", unitdir, err)
 			worker.UpdateBasicStatus(WorkStateFailed, fmt.Sprintf("Failed to restart: %s", err), stdoutSize(unitdir))
 		}
+		verifPoint("scan.before_restart", ident)
 		err = worker.Restart()
+		verifPoint("scan.restarted", ident)
 		if err != nil && !IsPending(err) {
 			w.nc.GetLogger().Warning("Failed to restart worker %s: %s", unitdir, err)
 			worker.UpdateBasicStatus(WorkStateFailed, fmt.Sprintf("Failed to restart: %s", err), stdoutSize(unitdir))
